@@ -457,13 +457,13 @@ ARTEFACTS = {
     "g_set2": ["graph", "set2", "bytes", "3000", "{out}", "{alpha}"],
     "g_kb1_bytes": ["graph", "kb1", "bytes", "3000", "{out}", "{alpha}"],
     "g_kb2_bytes": ["graph", "kb2", "bytes", "3000", "{out}", "{alpha}"],
-    "g_event": ["graph", "event", "events", "30000", "{out}", "{alpha}"],
-    "g_kb2_events": ["graph", "kb2", "kbevents", "30000", "{out}", "{alpha}"],
+    "g_event": ["graph", "event", "events", "8000", "{out}", "{alpha}"],
+    "g_kb2_events": ["graph", "kb2", "kbevents", "6000", "{out}", "{alpha}"],
     "g_kb2_bits": ["graph", "kb2:lean", "bits", "200000", "{out}", "{alpha}"],
     "g_kb1_bits": ["graph", "kb1:lean", "bits", "200000", "{out}", "{alpha}"],
-    "g_kb2_mixedq": ["graph", "kb2:lean", "mixedq", "800000", "{out}", "{alpha}"],
-    "g_kb1_mixedq": ["graph", "kb1:lean", "mixedq", "800000", "{out}", "{alpha}"],
-    "g_kb2_mixed": ["graph", "kb2:lean", "mixed", "3000000", "{out}", "{alpha}"],
+    "g_kb2_mixedq": ["graph", "kb2:lean", "mixedq", "250000", "{out}", "{alpha}"],
+    "g_kb1_mixedq": ["graph", "kb1:lean", "mixedq", "150000", "{out}", "{alpha}"],
+    "g_kb2_mixed": ["graph", "kb2:lean", "mixed", "800000", "{out}", "{alpha}"],
     # recorded calls: the repository's own test/example scenarios followed by seeded random interleavings
     "tr_noise_kb2": ["trace", "full", "kb2", "{seed}", "20", "2000", os.path.join(SPEC, "scenarios_kb2.json"), "{out}"],
     "tr_noise_kb1": ["trace", "full", "kb1", "{seed}", "20", "2000", os.path.join(SPEC, "scenarios_kb1.json"), "{out}"],
